@@ -58,6 +58,11 @@ pub struct Case {
     pub api: Api,
     pub expect: Expect,
     pub reply: Reply,
+    /// results the same thread's earlier requests received (same API and expectation), oldest first:
+    /// every one of them is judged like `reply`, so a case is a short history and whatever one result
+    /// leaves behind for a later one (a cache, a memo) shows in a replayable case
+    #[serde(default)]
+    pub earlier: Vec<Reply>,
 }
 
 /// what the app was told, reduced to comparable data
@@ -294,6 +299,13 @@ fn header_model(hs: &[(String, String)]) -> BTreeMap<String, Vec<String>> {
 
 /// Err((signature, explanation))
 pub fn judge(c: &Case) -> Result<(), (String, String)> {
+    for e in &c.earlier {
+        judge_one(&Case { api: c.api, expect: c.expect, reply: e.clone(), earlier: vec![] })?;
+    }
+    judge_one(c)
+}
+
+fn judge_one(c: &Case) -> Result<(), (String, String)> {
     let seen = match observe(c) {
         Ok(s) => s,
         Err(panic) => {
@@ -531,13 +543,13 @@ pub fn strategy() -> BoxedStrategy<Case> {
         1 => values().prop_map(Reply::Io),
         1 => Just(Reply::Timeout),
     ];
-    (prop_oneof![Just(Api::Command), Just(Api::Capability), Just(Api::CapabilityAsync)], prop_oneof![Just(Expect::Bytes), Just(Expect::Str), Just(Expect::Json), Just(Expect::Typed)], reply).prop_map(|(api, expect, reply)| Case { api, expect, reply }).boxed()
+    (prop_oneof![Just(Api::Command), Just(Api::Capability), Just(Api::CapabilityAsync)], prop_oneof![Just(Expect::Bytes), Just(Expect::Str), Just(Expect::Json), Just(Expect::Typed)], reply.clone(), prop_oneof![3 => Just(vec![]).boxed(), 1 => prop::collection::vec(reply, 1..3).boxed()]).prop_map(|(api, expect, reply, earlier)| Case { api, expect, reply, earlier }).boxed()
 }
 
 pub const KNOWN_SIGS: &[&str] = &["panic-status-outside-http-types-table", "panic-non-ascii-header", "content-type-octet-stream-injected", "utf8-bom-retained"];
 
 fn reproducer(sig: &str) -> Option<Case> {
-    let resp = |status, headers: Vec<(&str, &str)>, body: &[u8], expect| Case { api: Api::Command, expect, reply: Reply::Response { status, headers: headers.into_iter().map(|(a, b)| (a.to_string(), b.to_string())).collect(), body: body.to_vec() } };
+    let resp = |status, headers: Vec<(&str, &str)>, body: &[u8], expect| Case { api: Api::Command, expect, earlier: vec![], reply: Reply::Response { status, headers: headers.into_iter().map(|(a, b)| (a.to_string(), b.to_string())).collect(), body: body.to_vec() } };
     Some(match sig {
         "panic-status-outside-http-types-table" => resp(299, vec![], b"", Expect::Bytes),
         "panic-non-ascii-header" => resp(200, vec![("x-a", "é")], b"", Expect::Bytes),
